@@ -617,10 +617,62 @@ impl World {
                     .iter()
                     .map(|(a, am)| (*a, am.head()))
                     .collect();
+                // the node's "already known?" test looks at its pre-batch memory
+                let pre_ranges: BTreeMap<(usize, u64), rangemap::RangeInclusiveSet<u64>> = self.model[n]
+                    .actors
+                    .iter()
+                    .flat_map(|(a, am)| {
+                        am.versions
+                            .iter()
+                            .filter(|(_, vm)| vm.state == VState::Partial)
+                            .map(move |(v, vm)| ((*a, *v), vm.ranges.clone()))
+                    })
+                    .collect();
+                // pre-batch knowledge (the node's "already known?" tests use its pre-batch memory)
+                let pre_known: BTreeMap<(usize, u64), bool> = self.model[n]
+                    .actors
+                    .iter()
+                    .flat_map(|(a, am)| {
+                        am.versions.iter().map(move |(v, vm)| {
+                            ((*a, *v), vm.state != VState::Partial || vm.covered_all())
+                        })
+                    })
+                    .collect();
+                // the node's partial records after the step (to resolve legal ambiguities)
+                let mut after_partials: BTreeSet<(usize, u64)> = BTreeSet::new();
+                {
+                    let bk = self.node(n).bookie.read::<&str, _>("sim(observe)", None).await;
+                    for (actor, booked) in bk.iter() {
+                        let Some(&ai) = self.actor_idx.get(actor) else { continue };
+                        let br = booked.read::<&str, _>("sim(observe)", None).await;
+                        for v in br.partials.keys() {
+                            after_partials.insert((ai, v.0));
+                        }
+                    }
+                }
+                // the node first drops changesets with identical (actor, versions, seqs)
+                let mut exact: BTreeSet<(ActorId, u64, u64, Option<(u64, u64)>)> = BTreeSet::new();
                 for (c, _) in &batch {
-                    if let Some(t) =
-                        self.model_deliver(n, c, &mut merges, &mut batch_seen, &pre_heads)?
-                    {
+                    let vr = c.versions();
+                    if !exact.insert((
+                        c.actor_id,
+                        vr.start().0,
+                        vr.end().0,
+                        c.seqs().map(|r| (r.start().0, r.end().0)),
+                    )) {
+                        self.stats.probe("model.exact-dup-in-batch");
+                        continue;
+                    }
+                    if let Some(t) = self.model_deliver(
+                        n,
+                        c,
+                        &mut merges,
+                        &mut batch_seen,
+                        &pre_heads,
+                        &pre_ranges,
+                        &after_partials,
+                        &pre_known,
+                    )? {
                         newly_covered.push(t);
                     }
                 }
@@ -628,34 +680,7 @@ impl World {
                 // within an actor in batch order: mirror that order in the reference
                 merges.sort_by_key(|(a, _, _)| *a);
                 for (a, ch, observe) in merges {
-                    if let Some(v) = observe {
-                        // a complete changeset arrived for a version that was already completely
-                        // buffered: applying it now or leaving it to the scheduled apply are both
-                        // fine; follow what the node did (its partial record is gone iff applied)
-                        let still_partial = {
-                            let booked = self
-                                .node(n)
-                                .bookie
-                                .read::<&str, _>("sim(observe)", None)
-                                .await
-                                .get(&self.actors[a])
-                                .cloned();
-                            match booked {
-                                Some(b) => b
-                                    .read::<&str, _>("sim(observe)", None)
-                                    .await
-                                    .get_partial(&CrsqlDbVersion(v))
-                                    .is_some(),
-                                None => false,
-                            }
-                        };
-                        if still_partial {
-                            self.stats.probe("model.complete-over-covered.kept-buffered");
-                            continue;
-                        }
-                        self.stats.probe("model.complete-over-covered.applied-now");
-                        self.model[n].actors.entry(a).or_default().set_known(v, VState::Applied);
-                    }
+                    let _ = (a, observe);
                     self.shadows[n].merge(&ch)?;
                 }
                 for k in used {
@@ -684,6 +709,9 @@ impl World {
         merges: &mut Vec<(usize, Vec<Change>, Option<u64>)>,
         batch_seen: &mut BatchSeen,
         pre_heads: &BTreeMap<usize, u64>,
+        pre_ranges: &BTreeMap<(usize, u64), rangemap::RangeInclusiveSet<u64>>,
+        after_partials: &BTreeSet<(usize, u64)>,
+        pre_known: &BTreeMap<(usize, u64), bool>,
     ) -> R<Option<(usize, u64)>> {
         let Some(&a) = self.actor_idx.get(&c.actor_id) else {
             return Ok(None);
@@ -695,11 +723,8 @@ impl World {
         match &c.changeset {
             Changeset::Empty { versions, .. } => {
                 // known = held, or completely buffered (waiting for its apply)
-                let all_known = (versions.start().0..=versions.end().0).all(|v| {
-                    am.versions
-                        .get(&v)
-                        .is_some_and(|vm| vm.state != VState::Partial || vm.covered())
-                });
+                let all_known = (versions.start().0..=versions.end().0)
+                    .all(|v| pre_known.get(&(a, v)).copied().unwrap_or(false));
                 if all_known {
                     return Ok(None);
                 }
@@ -747,16 +772,31 @@ impl World {
                     self.stats.probe("model.dup-known");
                     return Ok(None);
                 }
-                if let Some(vm) = am.versions.get(&v) {
-                    // everything in this chunk is already buffered: a duplicate,
+                if let Some(pre) = pre_ranges.get(&(a, v)) {
+                    // everything in this chunk was buffered before this batch: a duplicate,
                     // even when the chunk is the complete version
-                    if (seqs.start().0..=seqs.end().0).all(|s| vm.ranges.contains(&s)) {
-                        if complete && batch_seen.contains_key(&(a, v)) {
-                            // ...unless the buffering happened earlier in this very batch: the
-                            // node's in-batch dedupe may or may not catch it (decided by observation)
-                            merges.push((a, changes.clone(), Some(v)));
-                        }
+                    if (seqs.start().0..=seqs.end().0).all(|s| pre.contains(&s)) {
                         self.stats.probe("model.dup-chunk");
+                        return Ok(None);
+                    }
+                }
+                if let Some(vm) = am.versions.get(&v) {
+                    if complete
+                        && vm.state == VState::Partial
+                        && batch_seen.contains_key(&(a, v))
+                        && (seqs.start().0..=seqs.end().0).all(|s| vm.ranges.contains(&s))
+                    {
+                        // completely buffered earlier in this very batch: the node's in-batch
+                        // dedupe may or may not catch the complete changeset; both are fine, follow
+                        // what the node did (its partial record is gone iff it applied)
+                        if after_partials.contains(&(a, v)) {
+                            self.stats.probe("model.complete-over-covered.kept-buffered");
+                            return Ok(None);
+                        }
+                        self.stats.probe("model.complete-over-covered.applied-now");
+                        batch_seen.insert((a, v), None);
+                        am.set_known(v, VState::Applied);
+                        merges.push((a, changes.clone(), None));
                         return Ok(None);
                     }
                 }
@@ -785,6 +825,7 @@ impl World {
                     state: VState::Partial,
                     ranges: Default::default(),
                     last_seq: last_seq.0,
+                    last_seqs: Default::default(),
                     changes: BTreeMap::new(),
                     last_seq_conflict: false,
                     stale_rows: false,
@@ -794,13 +835,8 @@ impl World {
                     vm.last_seq_conflict = true;
                     self.stats.probe("model.last-seq-conflict");
                 }
-                // already fully contained?
-                let contained = (seqs.start().0..=seqs.end().0).all(|s| vm.ranges.contains(&s));
-                if contained {
-                    self.stats.probe("model.dup-chunk");
-                    return Ok(None);
-                }
-                let was_covered = vm.covered() && !vm.ranges.is_empty();
+                let was_covered_all = vm.covered_all();
+                vm.last_seqs.insert(last_seq.0);
                 vm.ranges.insert(seqs.start().0..=seqs.end().0);
                 for ch in changes {
                     vm.changes.entry(ch.seq.0).or_insert_with(|| ch.clone());
@@ -817,7 +853,7 @@ impl World {
                     set.insert(merged);
                     batch_seen.insert((a, v), Some(set));
                 }
-                if !was_covered && vm.covered() {
+                if !was_covered_all && vm.covered_all() {
                     self.stats.probe("model.covered");
                     return Ok(Some((a, v)));
                 }
@@ -843,6 +879,28 @@ impl World {
             return Ok(Ok(()));
         };
         self.node_mut(n).apply_backlog.remove(pos);
+        // which announced last_seq the node goes by is its choice: read its belief
+        let node_covered = {
+            let booked = self
+                .node(n)
+                .bookie
+                .read::<&str, _>("sim(observe)", None)
+                .await
+                .get(&actor)
+                .cloned();
+            match booked {
+                Some(b) => {
+                    let br = b.read::<&str, _>("sim(observe)", None).await;
+                    br.get_partial(&CrsqlDbVersion(v)).map(|p| {
+                        (
+                            p.seqs.gaps(&(CrsqlSeq(0)..=p.last_seq)).next().is_none(),
+                            p.last_seq.0,
+                        )
+                    })
+                }
+                None => None,
+            }
+        };
         let res = self.node_mut(n).apply(actor, CrsqlDbVersion(v)).await?;
         self.logln(format!("apply n{n}: a{a} v{v} -> {res:?}"));
         match res {
@@ -856,7 +914,11 @@ impl World {
             Ok(_) => {
                 let am = self.model[n].actors.entry(a).or_default();
                 if let Some(vm) = am.versions.get_mut(&v) {
-                    if vm.state == VState::Partial && vm.covered() {
+                    let believed = match node_covered {
+                        Some((c, l)) => c && (vm.last_seqs.contains(&l) || vm.last_seq == l),
+                        None => false,
+                    };
+                    if vm.state == VState::Partial && believed && vm.covered_some() {
                         let changes: Vec<Change> = vm.changes.values().cloned().collect();
                         vm.state = VState::Applied;
                         vm.stale_rows = true;
@@ -954,16 +1016,26 @@ impl World {
         }
         flat.sort_by_key(|(a, nd)| (*a, need_key(nd)));
         let mut frames: Vec<SyncRequestV1> = vec![];
+        // what actually goes to the server (the client's chunk_range cuts overlap by one
+        // version, so boundary versions are requested - and answered - twice)
+        let mut sent: Vec<(usize, SyncNeedV1)> = vec![];
         for (ai, nd) in flat.iter() {
             match nd {
                 SyncNeedV1::Full { versions } if faults.split10 => {
-                    for r in klukai_agent::api::peer::verif::chunk_range(versions.clone(), 10) {
+                    let parts = klukai_agent::api::peer::verif::chunk_range(versions.clone(), 10);
+                    tri!(super::oracle::check_chunk_range(self, versions, &parts));
+                    for r in parts {
+                        sent.push((*ai, SyncNeedV1::Full { versions: r.clone() }));
                         frames.push(vec![(self.actors[*ai], vec![SyncNeedV1::Full { versions: r }])]);
                     }
                 }
-                _ => frames.push(vec![(self.actors[*ai], vec![nd.clone()])]),
+                _ => {
+                    sent.push((*ai, nd.clone()));
+                    frames.push(vec![(self.actors[*ai], vec![nd.clone()])])
+                }
             }
         }
+        let flat = sent;
         let n_needs = flat.len();
         let (msgs, err) = self.node(s).serve(frames).await?;
         let mut answers = changeset_msgs(msgs);
@@ -1005,8 +1077,9 @@ impl World {
             self.stats.probe("sync.with-answers");
         }
         for a in kept {
+            let (ls, nch) = (a.last_seq().map(|x| x.0), a.changes().len());
             let k = self.add_msg(Some(c), s, "s", a);
-            self.logln(format!("  -> {k}"));
+            self.logln(format!("  -> {k} last_seq={ls:?} changes={nch}"));
         }
         Ok(Ok(()))
     }
@@ -1056,7 +1129,7 @@ impl World {
             )?;
             let am = self.model[n].actors.get_mut(&a).unwrap();
             for vm in am.versions.values_mut() {
-                if vm.stale_rows && vm.state != VState::Partial && !vm.covered() {
+                if vm.stale_rows && vm.state != VState::Partial && !vm.covered_some() {
                     vm.state = VState::Partial;
                     vm.stale_rows = false;
                     vm.reverted = true;
